@@ -169,6 +169,41 @@ CHECKS = {
         'note': TRUST + ' Not decided: that delivered values equal what polling would show in every history.',
         'technique': 'static analysis: dominators, guard-atom dataflow, call-site counting, who-may-write via effect events',
     },
+    'C07': {
+        'text': 'Dispatch-table clauses only, recovered from the match statements in MIR on every run: Op<->name (31 rows) and '
+                'CommandType<->name (26) are bijections with new_from_name(get_name(v)) = v; for each Op '
+                'get_number_of_parameters = 1 + the largest constant index into params in the function call_type dispatches '
+                'to; for each ValueType variant the ordinal for which Value::cast answers "already this type" equals the '
+                'variant\'s discriminant (get_cast_ordinal reads the raw repr(u8) discriminant, so reordering the enum '
+                'silently changes every mixed-type operation); the 16 operator tokens the compiler emits are runtime names.',
+        'design_ref': 'DESIGN.md §4 C07',
+        'note': TRUST + ' Not decided: the values themselves (coercion results, list algebra, precedence) - needs an '
+                'independent evaluator and execution.',
+        'technique': 'static analysis: finite-map recovery from MIR switch / string-match chains and cross-checking of tables',
+    },
+    'C19': {
+        'text': 'Three structural clauses: (a) Hash agrees with Eq for Path and Component - the fields hash depends on are a '
+                'subset of those eq compares, and the cached text form Path::components_string has exactly one producer '
+                '(the get_or_init closure computing it from components and is_relative; no OnceCell::set, no pre-filled '
+                'cache); (b) renderer and parser use the same separator, relative marker and parent token, the marker is '
+                'emitted iff is_relative and sets it when parsed, index components are printed/parsed symmetrically '
+                '(guard-atom dataflow); (c) Object::get_path names a component exactly under has_valid_name(), '
+                'Container::new registers exactly those children, and names are resolved through named_content.',
+        'design_ref': 'DESIGN.md §4 C19',
+        'note': TRUST + ' Not decided: that every object of every story resolves back to itself (depends on story data).',
+        'technique': 'static analysis: field-read sets, single-producer rule for a cache, guard-atom dataflow, constant agreement',
+    },
+    'C20': {
+        'text': 'JSON-mode output of rinklecate: at each of the 12 format_args sites whose literal pieces contain a double '
+                'quote every interpolated argument is an integer, the direct result of escape_json_string / '
+                'serde_json::to_string, or a join/format of fragments satisfying the same rule (backward slicing through '
+                'closures and Vec pushes); escape_json_string covers quote, backslash and the whole range U+0000-U+001F; '
+                'a compile error reaches a non-zero process::exit, is printed through CompilerError\'s Display, and the '
+                'bytes written with -o derive only from the compiler\'s Ok payload.',
+        'design_ref': 'DESIGN.md §4 C20',
+        'note': TRUST + ' Not decided: that the sequence of lines equals the library\'s for every program and input script.',
+        'technique': 'static analysis: format_args site enumeration + backward slicing of interpolated arguments over MIR, char-table coverage',
+    },
 }
 
 NOT_APPLICABLE = {
